@@ -134,3 +134,29 @@ package container
 //@   loop 1:
 //@     invariant 0 <= @i && @i <= len(s.Set) && len(s.Set) == len(oth.Set) && s.Inverse == oth.Inverse
 //@     invariant forall k in 0..@i :: s.Set[k] == oth.Set[k]
+
+// ---- IntSliceSet (C06: the lookahead signatures of minimizeDFA are interned here) ----
+
+//@ func SliceEqual
+//@   ensures result <==> (len(a) == len(b) && forall k in 0..len(a) :: a[k] == b[k])
+//@   loop 1:
+//@     invariant 0 <= @i && @i <= len(a) && len(a) == len(b)
+//@     invariant forall k in 0..@i :: a[k] == b[k]
+
+// The polynomial hash of the first n elements (uint64 arithmetic wraps).
+//@ spec func sliceHash(key []int, n int) uint64 decreases n = n <= 0 ? 0 : umod(umod(sliceHash(key, n-1) * 31, 18446744073709551616) + umod(key[n-1], 18446744073709551616), 18446744073709551616)
+
+// Insert: either the index of an entry of the key's bucket that holds the same integers, or a new
+// entry appended to that bucket which holds a COPY of the key (later writes through the caller's
+// slice must not change the set) under the next free index.
+//@ pred issHit(s *IntSliceSet, key []int, r int) = s.size == old(s.size) && exists j in 0..len(old(s.data[sliceHash(key, len(key))])) :: old(s.data[sliceHash(key, len(key))][j].index) == r && len(old(s.data[sliceHash(key, len(key))][j].key)) == len(key) && forall k in 0..len(key) :: old(s.data[sliceHash(key, len(key))][j].key[k]) == key[k]
+//@ pred issNew(s *IntSliceSet, key []int, r int) = r == old(s.size) && s.size == old(s.size) + 1 && len(s.data[sliceHash(key, len(key))]) == len(old(s.data[sliceHash(key, len(key))])) + 1 && s.data[sliceHash(key, len(key))][len(s.data[sliceHash(key, len(key))])-1].index == r && fresh(s.data[sliceHash(key, len(key))][len(s.data[sliceHash(key, len(key))])-1].key) && len(s.data[sliceHash(key, len(key))][len(s.data[sliceHash(key, len(key))])-1].key) == len(key) && forall k in 0..len(key) :: s.data[sliceHash(key, len(key))][len(s.data[sliceHash(key, len(key))])-1].key[k] == key[k]
+
+//@ func IntSliceSet.Insert
+//@   requires s.data != nil
+//@   modifies s.size, s.data, s.data[sliceHash(key, len(key))][0:cap(s.data[sliceHash(key, len(key))])]
+//@   ensures issHit(s, key, result) || issNew(s, key, result)
+//@   loop 1:
+//@     invariant 0 <= @i && @i <= len(key) && hash == sliceHash(key, @i)
+//@   loop 2:
+//@     invariant 0 <= @i && @i <= len(s.data[hash]) && hash == sliceHash(key, len(key)) && s.size == old(s.size)
